@@ -377,15 +377,15 @@ func buildHistory(rt *rapid.T, full bool) (*histBuilder, string) {
 	}
 	b.send(other[0], &oracletypes.MsgCreateFeed{Creator: other[0].Bech, Name: "jklprice"})
 	b.send(other[0], &oracletypes.MsgUpdateFeed{Creator: other[0].Bech, Name: "jklprice", Data: `{"price":"0.31","24h_change":"1"}`})
-	b.send(b.owners[0], rnstypes.NewMsgRegisterName(b.owners[0].Bech, "alpha.jkl", 2, `{"a":"b"}`, true))
-	b.send(b.owners[1], rnstypes.NewMsgRegisterName(b.owners[1].Bech, "beta.ibc", 1, "{}", false))
+	b.send(b.owners[0], newMsgRegisterName(b.owners[0].Bech, "alpha.jkl", 2, `{"a":"b"}`, true))
+	b.send(b.owners[1], newMsgRegisterName(b.owners[1].Bech, "beta.ibc", 1, "{}", false))
 	b.send(b.owners[0], rnstypes.NewMsgAddRecord(b.owners[0].Bech, "alpha.jkl", "www", other[0].Bech, "{}"))
-	b.send(b.owners[0], rnstypes.NewMsgList(b.owners[0].Bech, "alpha.jkl", sdk.NewInt64Coin("ujkl", 5000)))
+	b.send(b.owners[0], newMsgList(b.owners[0].Bech, "alpha.jkl", sdk.NewInt64Coin("ujkl", 5000)))
 	b.send(other[0], rnstypes.NewMsgBid(other[0].Bech, "beta.ibc", sdk.NewInt64Coin("ujkl", 700)))
 	b.send(other[0], rnstypes.NewMsgInit(other[0].Bech))
 	o0 := b.owners[0]
 	tn := "tn-root"
-	b.send(o0, fttypes.NewMsgProvisionFileTree(o0.Bech, accessJSON("e", tn, o0.Bech), accessJSON("v", tn, o0.Bech), tn))
+	b.send(o0, newMsgProvisionFileTree(o0.Bech, accessJSON("e", tn, o0.Bech), accessJSON("v", tn, o0.Bech), tn))
 	b.send(o0, fttypes.NewMsgPostKey(o0.Bech, "pubkey-of-o0"))
 	b.send(other[1], fttypes.NewMsgPostKey(strings.ToUpper(other[1].Bech), "pubkey-under-another-spelling")) // same account, upper-case bech32
 	root := fttypes.MerklePath("s")
@@ -437,17 +437,17 @@ func buildHistory(rt *rapid.T, full bool) (*histBuilder, string) {
 				f := b.files[rapid.IntRange(0, len(b.files)-1).Draw(rt, "file")]
 				p := b.provs[rapid.IntRange(0, len(b.provs)-1).Draw(rt, "prover")]
 				if rapid.Bool().Draw(rt, "attestOrReport") {
-					b.send(p, storagetypes.NewMsgRequestAttestationForm(p.Bech, f.Merkle, f.Owner, f.Start))
+					b.send(p, newMsgRequestAttestationForm(p.Bech, f.Merkle, f.Owner, f.Start))
 					for _, s := range b.provs {
 						if rapid.Bool().Draw(rt, "signs") {
-							b.send(s, storagetypes.NewMsgAttest(s.Bech, p.Bech, f.Merkle, f.Owner, f.Start))
+							b.send(s, newMsgAttest(s.Bech, p.Bech, f.Merkle, f.Owner, f.Start))
 						}
 					}
 				} else {
-					b.send(other[1], storagetypes.NewMsgRequestReportForm(other[1].Bech, p.Bech, f.Merkle, f.Owner, f.Start))
+					b.send(other[1], newMsgRequestReportForm(other[1].Bech, p.Bech, f.Merkle, f.Owner, f.Start))
 					if rapid.Bool().Draw(rt, "signReport") {
 						s := b.provs[rapid.IntRange(0, len(b.provs)-1).Draw(rt, "reporter")]
-						b.send(s, storagetypes.NewMsgReport(s.Bech, p.Bech, f.Merkle, f.Owner, f.Start))
+						b.send(s, newMsgReport(s.Bech, p.Bech, f.Merkle, f.Owner, f.Start))
 					}
 				}
 				b.formRequested = true
@@ -548,8 +548,8 @@ func buildHistory(rt *rapid.T, full bool) (*histBuilder, string) {
 				prover := strings.SplitN(uf.Proofs[0], "/", 2)[0]
 				for _, p := range b.provs {
 					if p.Bech == prover {
-						b.send(p, storagetypes.NewMsgRequestAttestationForm(p.Bech, f.Merkle, f.Owner, f.Start))
-						b.send(other[1], storagetypes.NewMsgRequestReportForm(other[1].Bech, p.Bech, f.Merkle, f.Owner, f.Start))
+						b.send(p, newMsgRequestAttestationForm(p.Bech, f.Merkle, f.Owner, f.Start))
+						b.send(other[1], newMsgRequestReportForm(other[1].Bech, p.Bech, f.Merkle, f.Owner, f.Start))
 						b.formRequested = true
 					}
 				}
